@@ -57,7 +57,7 @@ CLAIMED = {
          "Needs the cfg-guarded init probe; deadlock = 10 s watchdog reproduced; the listed known finding (torn registration) is tolerated by exact signature only.",
          "DESIGN.md §4 C13"),
  "C14": ("exhaustive matrix plus generated chains in fresh child processes: every handler kind x every re-entrant action, each handler probing all engine locks with try_lock before acting, under a watchdog",
-         "Exploration, exhaustive over the stated matrix: 15 handler kinds x 16 re-entrant actions (incl. re-registering the running handlers and registering an operator used later in the running program), all ordered kind pairs x 5 actions, and ~8000 generated chains of 2-4 handlers; every handler finds all registries and the evaluating context unlocked, the action completes and the outer evaluation returns the hand-computed value.",
+         "Exploration, exhaustive over the stated matrix: 15 handler kinds x 16 re-entrant actions (incl. re-registering the running handlers and registering an operator used later in the running program), all ordered kind pairs x 5 actions, and ~40000 generated chains of 2-4 handlers; every handler finds all registries and the evaluating context unlocked, the action completes and the outer evaluation returns the hand-computed value.",
          "Lock state through the cfg-guarded locks_free() hook and the context's public mutex; single-threaded evaluations, so a held lock is attributable to the engine.",
          "DESIGN.md §4 C14"),
  "C18": ("stateful property testing: generated descriptor-registration histories in fresh child processes over 1-3 persistent threads; describe() of every AST after every step on every thread against a model registry of marker descriptors; exhaustive single-registration table",
